@@ -190,6 +190,14 @@ def build_diffs(ob, interp, out_shape, outs):
                 s2 = z3.simplify(s)
                 if z3.is_true(s2):
                     continue
+                if kind == "f" and not ob.tol and interp.ops.mul_mode == "exact":
+                    # polynomial identities: expand the difference into a sum of monomials; 0 means syntactically equal
+                    try:
+                        d0 = z3.simplify(J.zreal(J.lower(x)) - J.zreal(J.lower(y)), som=True)
+                        if z3.is_rational_value(d0) and d0.numerator_as_long() == 0:
+                            continue
+                    except Exception:  # noqa: BLE001
+                        pass
                 diffs.append((f"{paths[i]}{list(idx) if idx else ''}", z3.Not(s)))
             elif not s:
                 diffs.append((f"{paths[i]}{list(idx) if idx else ''}", z3.BoolVal(True)))
@@ -499,9 +507,20 @@ def decide(ob: Ob, pid: str, known: list) -> Result:
 
 
 def _check(s, timeout_s):
+    """z3's own timeout is best effort (nonlinear arithmetic can overrun it by minutes): a watchdog interrupts the context"""
+    import threading
+
     s.set("timeout", int(timeout_s * 1000))
     t = time.time()
-    r = s.check()
+    timer = threading.Timer(timeout_s + 5, lambda: s.ctx.interrupt())
+    timer.daemon = True
+    timer.start()
+    try:
+        r = s.check()
+    except z3.Z3Exception:
+        r = "unknown"
+    finally:
+        timer.cancel()
     return str(r), time.time() - t
 
 
@@ -640,8 +659,12 @@ class KnownDeviation:
         if r2.verdict == "unsat":
             r.known = self.finding
             r.detail = f"known finding {self.finding} reproduced ({r.detail[:160]}); real code == reference with exactly the recorded defect for all values"
+        elif r2.verdict == "sat" and r2.reproduced:
+            r.detail = f"violation beyond known finding {self.finding}: deviant reference also violated: {r2.detail[:200]} | primary: {r.detail[:200]}"
         else:
-            r.detail = f"violation beyond known finding {self.finding}: deviant reference {r2.verdict}: {r2.detail[:200]} | primary: {r.detail[:200]}"
+            # the deviant query could not be decided: inconclusive, never a violation and never a pass
+            r.verdict, r.reproduced = "unknown", False
+            r.detail = f"known finding {self.finding} reproduced but the deviant-reference query is {r2.verdict}: {r2.detail[:200]}"
         return r
 
 
